@@ -408,6 +408,8 @@ class HistogramND(HistogramBase):
         if weights is not None:
             # TODO: Check for weights size?
             self._coerce_dtype(weights.dtype)
+        else:
+            self._coerce_dtype(int)  # Counting, as in fill()
         for i, binning in enumerate(self._binnings):
             if binning.is_adaptive():
                 bin_map = binning.force_bin_existence(
